@@ -263,6 +263,9 @@ def walk_with_error_replies(draw, lossy):
     for _ in range(n):
         pos = draw(st.integers(0, len(ops)))
         ops.insert(pos, draw(rewrite_ops()))
+    for _ in range(draw(st.integers(0, 2))):
+        ops.insert(draw(st.integers(0, len(ops))), c09.to_op(draw(st.sampled_from(['hard_in_gone', 'hard_out_gone'])),
+                                                             draw(st.sampled_from(['a', 'b'])), draw(st.integers(0, 3))))
     return ops
 
 
